@@ -15,16 +15,16 @@ mkdir -p "$wt/SEED" && cp -r "$inbox"/* "$wt/SEED/"
 cd "$wt"
 # demos refer to /tmp/seed-<prop>; point them at this worktree
 prop=$(echo "$name" | cut -d- -f1)
-sed -i "s#/tmp/seed8-$prop#$wt#g; s#/tmp/tmp-seed8-$prop#/tmp/tmp-vs-$prop#g; s#/tmp/seed7-$prop#$wt#g; s#/tmp/tmp-seed7-$prop#/tmp/tmp-vs-$prop#g; s#/tmp/seed6-$prop#$wt#g; s#/tmp/seed5-$prop#$wt#g; s#/tmp/seed4-$prop#$wt#g; s#/tmp/seed3-$prop#$wt#g; s#/tmp/seed2-$prop#$wt#g; s#/tmp/seed-$prop#$wt#g" SEED/*.sh SEED/*.rs 2>/dev/null
+sed -i "s#/tmp/seed9-$prop#$wt#g; s#/tmp/tmp-seed9-$prop#/tmp/tmp-vs-$prop#g; s#/tmp/seed8-$prop#$wt#g; s#/tmp/tmp-seed8-$prop#/tmp/tmp-vs-$prop#g; s#/tmp/seed7-$prop#$wt#g; s#/tmp/tmp-seed7-$prop#/tmp/tmp-vs-$prop#g; s#/tmp/seed6-$prop#$wt#g; s#/tmp/seed5-$prop#$wt#g; s#/tmp/seed4-$prop#$wt#g; s#/tmp/seed3-$prop#$wt#g; s#/tmp/seed2-$prop#$wt#g; s#/tmp/seed-$prop#$wt#g" SEED/*.sh SEED/*.rs 2>/dev/null
 mkdir -p "/tmp/tmp-vs-$prop"
 export CARGO_TARGET_DIR="$wt/target" CARGO_NET_OFFLINE=true TMPDIR="/tmp/tmp-vs-$prop"
 mkdir -p "$wt/target"
-bash "SEED/$demo"; d0=$?
+bash "SEED/$demo" < /dev/null; d0=$?
 git apply "SEED/$patch"; ap=$?
 cargo test --workspace --no-fail-fast --offline > "$wt/suite.log" 2>&1; st=$?
 fails=$(grep -c "^test .* FAILED" "$wt/suite.log")
 tail -5 "$wt/suite.log"
-bash "SEED/$demo"; d1=$?
+bash "SEED/$demo" < /dev/null; d1=$?
 git checkout -- . 
 set +x
 echo "SUMMARY name=$name patch=$patch demo_without=$d0 apply=$ap suite_exit=$st suite_failed_tests=$fails demo_with=$d1"
